@@ -86,11 +86,11 @@ func runLong(c *Ctx, sh *shared, dir string) {
 		wg.Add(1)
 		go func(s *longSession) {
 			defer wg.Done()
-			s.got, s.ended, s.broke, s.err = s.fetch(unit, time.Duration(seconds+60)*time.Second)
+			s.got, s.ended, s.broke, s.err = s.fetch(unit, time.Duration(3*seconds+120)*time.Second) // patience only: on a loaded machine a unit of N one-second steps takes much longer than N s
 			s.tEnd = time.Since(t0)
 		}(s)
 	}
-	final, _ := WaitState(n.Sock, unit, []int{2, 3, 4}, time.Duration(seconds+50)*time.Second)
+	final, _ := WaitState(n.Sock, unit, []int{2, 3, 4}, time.Duration(3*seconds+100)*time.Second)
 	tFinal := time.Since(t0)
 	wg.Wait()
 	out, _ := os.ReadFile(filepath.Join(n.UnitDir(unit), "stdout"))
